@@ -1997,9 +1997,13 @@ class XNor(Any):
     """
 
     def __init__(self, *propositions, variable: typing.Union[puan.variable, str] = None):
+        at_least = AtLeast(value=1, propositions=propositions)
+        at_most = AtMost(value=1, propositions=propositions)
+        # kept for `to_json`, since they cannot be restored in general after negation has been moved inwards
+        self.arguments = at_most.propositions
         super().__init__(
-            AtLeast(value=1, propositions=propositions).negate(), 
-            AtMost(value=1, propositions=propositions).negate(), 
+            at_least.negate(), 
+            at_most.negate(), 
             variable=variable,
         )
 
@@ -2055,9 +2059,9 @@ class XNor(Any):
             'propositions': list(
                 map(
                     maz.compose(operator.methodcaller("to_json")),
-                    self.propositions[0].negate().propositions
+                    self.arguments
                 )
-            ) if len(self.propositions) > 0 else [],
+            ),
         }
         if not self.generated_id:
             d['id'] = self.id
